@@ -42,14 +42,12 @@ def _analyse_classes(root, classes, budget_s=600):
             if getattr(sc, 'must_admit', False) and not ok:
                 _problem(res, 'valid-node-rejected', g, cls, sc,
                          f'{by} rejects a statement that is valid where it '
-                         f'stands ({sc.label}: an enclosing loop of its '
-                         f'kind exists further out)', None)
+                         f'stands ({sc.label})', None)
             if getattr(sc, 'must_reject', False):
                 if ok:
                     _problem(res, 'invalid-node-accepted', g, cls, sc,
-                             f'no pass rejects the statement although no '
-                             f'enclosing loop of its kind exists '
-                             f'({sc.label})', None)
+                             f'no pass rejects a statement the language '
+                             f'rules forbid ({sc.label})', None)
                 continue
             if not ok:
                 continue
@@ -71,6 +69,14 @@ def _analyse_classes(root, classes, budget_s=600):
                     _check_path(sim, res, g, cls, sc, debug, choices, out,
                                 is_expr)
             _flag_equivalence(sim, res, g, cls, sc, per_flag)
+            if cls == 'BinaryOp':
+                for c, o in per_flag[False]:
+                    if o[0] == 'ok':
+                        ft = _operand_final_types(o[1])
+                        if ft is not None:
+                            opn, tys = sc.label.split(':', 1)
+                            rel.setdefault(('operand-types', tys), {})[
+                                opn] = (ft, sc)
             if cls == 'InputStmt':
                 rel.setdefault(sc.label.split(' prompt=')[0], []).append(
                     (sc, sorted(repr(_mask_literals(o[1]))
@@ -79,7 +85,23 @@ def _analyse_classes(root, classes, budget_s=600):
             if time.time() - t0 > budget_s:
                 res['unmodelled'].append((cls, 'time budget exhausted'))
                 break
-        for key, group in sorted(rel.items()):
+        for key, group in sorted(rel.items(), key=repr):
+            if isinstance(key, tuple) and key[0] == 'operand-types':
+                # a comparison brings its operands to the same common type
+                # as arithmetic on them does
+                ref = group.get('ADD')
+                if ref is None:
+                    continue
+                for opn, (ft, sc0) in sorted(group.items()):
+                    if opn.startswith('CMP_') and ft != ref[0]:
+                        _problem(res, 'comparison-common-type', g, cls, sc0,
+                                 f'for operand types {key[1]} the comparison '
+                                 f'{opn} is performed on {ft}, arithmetic '
+                                 f'(+) on {ref[0]}: the comparison converts '
+                                 f'an operand to a type that cannot hold it '
+                                 f'(e.g. a SINGLE to LONG) or the two '
+                                 f'disagree about the common type', None)
+                continue
             seqs = {tuple(x[1]) for x in group}
             if len(seqs) > 1:
                 _problem(res, 'prompt-dependent-code', g, cls, group[0][0],
@@ -423,6 +445,33 @@ def _flag_equivalence(sim, res, g, cls, sc, per_flag):
                  f'(first difference: {_first_diff(a, b)})', None)
 
 
+def _operand_final_types(instrs):
+    """Types the two operands of a binary operation have when the
+    operation executes: [$gen L, conv?, $gen R, conv?, op...]."""
+    real = list(G.strip_pseudo(instrs))
+    gens = [k for k, i in enumerate(real) if i[0] == '$gen']
+    if len(gens) != 2:
+        return None
+    out = []
+    for n, k in enumerate(gens):
+        end = gens[n + 1] if n + 1 < len(gens) else len(real)
+        t = None
+        node = real[k][1]
+        try:
+            t = node.fields['type'].name
+        except Exception:
+            return None
+        for i in real[k + 1:end]:
+            op = str(i[0])
+            if op.startswith('conv') and len(op) == 6:
+                t = {'%': 'INTEGER', '&': 'LONG', '!': 'SINGLE',
+                     '#': 'DOUBLE', '$': 'STRING'}.get(op[5], t)
+            else:
+                break
+        out.append(t)
+    return tuple(out)
+
+
 def _mask_literals(instrs):
     out = []
     for ins in G.strip_pseudo(instrs):
@@ -534,6 +583,7 @@ def _detail_head(detail, kind=None):
                 'marker-without-flag', 'flag-changes-code',
                 'inconsistent-stack', 'arg-type', 'print-items',
                 'prompt-dependent-code', 'exit-target',
+                'comparison-common-type',
                 'valid-node-rejected', 'invalid-node-accepted'):
         return kind
     if kind == 'generator-raises':
